@@ -1,6 +1,11 @@
+import CharsetProof.Lemmas.Congr
 import CharsetProof.Props.C11
 import CharsetProof.Props.C11b
+import CharsetProof.Props.C11c
 open Charset
+#print axioms C11_full_history_irrelevant
+#print axioms fromBytes_congr
+#print axioms worldFull_agree
 #print axioms Nested.C11_nested_history
 #print axioms Nested.callSolo_correct
 #print axioms Nested.solo_finishes
